@@ -110,6 +110,13 @@ func rulePositiveControls(which ...string) func(p *Prog, l *Ledger, tier string)
 					}
 				}
 				report(w, hit, "PosMutatesArg writes field A of its parameter")
+			case "manufactured-eof":
+				var fns []*ssa.Function
+				if fn := pp.Fn("PosManufacturedEOF"); fn != nil {
+					fns = append(fns, fn)
+				}
+				_, bad, _ := sentinelMisuses(fns, pp.Pos)
+				report(w, len(bad) == 1, "PosManufacturedEOF assigns io.EOF to its error")
 			case "go-stmt":
 				n := 0
 				for _, fn := range pp.LibFns {
